@@ -5,7 +5,7 @@
     net.Pipe with generation-tagged payloads, judged by the extracted [ok_C09]; deterministic
     scenarios compared for equality with the model run (checks/C09.py). *)
 From Coq Require Import ZArith Bool List Lia Arith.
-From GoSecs Require Import Hsms.Generations Hsms.GenerationsProofs.
+From GoSecs Require Import Hsms.Generations Hsms.GenerationsProofs Hsms.GenerationsMore.
 Import ListNotations.
 
 (** For EVERY sequence of atomic steps — any interleaving of any number of senders of every kind,
@@ -43,6 +43,43 @@ Theorem C09_generation_discipline : forall acts g,
 Proof. exact GI_reachable. Qed.
 Print Assumptions C09_generation_discipline.
 
+(** No stale reply, on steps: from any reachable state, a step that returns Reply-from-[f] or
+    Reject-from-[f] to call [c] has [f] = the generation [c] is pinned to ([f] is the generation of
+    the recv loop that routed the frame). *)
+Theorem C09_no_stale_reply : forall acts a c k f,
+  let s := fst (run init acts) in
+  In (OCompleted c k (RReply f)) (snd (exec s a)) \/ In (OCompleted c k (RReject f)) (snd (exec s a)) ->
+  f = c_gen (calls s c).
+Proof. exact no_stale_reply. Qed.
+Print Assumptions C09_no_stale_reply.
+
+(** Waiters are released: a call awaiting its reply can, in any step, only stay waiting or
+    return Reply/Reject-from-its-own-generation | timer | caller ctx | ConnClosed; and once the
+    teardown of its generation began, the ConnClosed completion is enabled (the model's part of
+    "completes promptly"; the time bound itself is asserted at run time with slack). *)
+Theorem C09_waiters_released : forall acts c,
+  let s := fst (run init acts) in
+  c_phase (calls s c) = PWait ->
+  (forall a, c_phase (calls (fst (exec s a)) c) = PWait \/
+             exists r, c_phase (calls (fst (exec s a)) c) = PDone r /\ waiter_result (c_gen (calls s c)) r = true) /\
+  (g_cancel (gens s (c_gen (calls s c))) = true ->
+   c_phase (calls (fst (exec s (CompleteClosed c))) c) = PDone RClosed /\
+   snd (exec s (CompleteClosed c)) = [OCompleted c (c_kind (calls s c)) RClosed]).
+Proof. exact waiters_released. Qed.
+Print Assumptions C09_waiters_released.
+
+(** Discarded, not flushed later: once the teardown of its generation began, a live call whose
+    frame is not yet on a wire (queued fire-and-forget frame, popped by the sender goroutine, or
+    parked anywhere inside writeFrame) never gets its frame onto ANY wire in ANY continuation. *)
+Theorem C09_queue_discarded : forall acts1 acts2 c,
+  let s1 := fst (run init acts1) in
+  live (c_phase (calls s1 c)) = true ->
+  wired s1 c = false ->
+  g_cancel (gens s1 (c_gen (calls s1 c))) = true ->
+  wired (fst (run s1 acts2)) c = false.
+Proof. exact queue_discarded_live. Qed.
+Print Assumptions C09_queue_discarded.
+
 (** Non-vacuity: a run in which a W-bit send is parked between its socket capture and its write
     across a drop, the teardown, the join, a reconnect and the next generation's Select, while a
     second call round-trips on generation 1 and an async frame is stranded in generation 0's queue,
@@ -68,4 +105,14 @@ Example C09_monitor_rejects :
   ok_C09 [OAccepted 0 KSyncW 0; OWire 1 0 KSyncW] = false /\
   ok_C09 [OAccepted 0 KSyncW 0; OWire 0 0 KSyncW; OCompleted 0 KSyncW (RReply 1)] = false /\
   ok_C09 [OAccepted 0 KAsync 0; OCompleted 0 KAsync RQueued; OTeardown 0; OWire 0 0 KAsync] = false.
+Proof. vm_compute. repeat split. Qed.
+
+(** Non-vacuity of the three statements above: a waiter of a torn-down generation, and a queued
+    frame of a torn-down generation, exist in reachable states. *)
+Example C09_waiter_exists :
+  let acts := [Open; TCPUp; Select; Enter 0 KSyncW; B1 0; Register 0; Capture 0; Check 0; WriteOk 0; Arm 0;
+               Enter 1 KAsync; B1 1; Enqueue 1; Drop; Teardown] in
+  let s := fst (run init acts) in
+  c_phase (calls s 0) = PWait /\ g_cancel (gens s (c_gen (calls s 0))) = true /\
+  live (c_phase (calls s 1)) = true /\ wired s 1 = false /\ g_cancel (gens s (c_gen (calls s 1))) = true.
 Proof. vm_compute. repeat split. Qed.
